@@ -472,6 +472,10 @@ fn parse_enum_variant(
                         RustType::try_from(&f.ty)?
                     };
 
+                    if serde_flatten(&f.attrs) {
+                        return Err(ParseError::SerdeFlattenNotAllowed);
+                    }
+
                     let has_default = serde_default(&f.attrs);
                     let decorators = get_field_decorators(&f.attrs);
 
